@@ -11,10 +11,14 @@ Notation step := (step san).
 Notation run := (run san).
 
 (* registry well-formedness with aliases, and "a live scope stays registered under its sanitized key" *)
+(* a scope object the registry still needs: not closed, or closed with something recorded before
+   its Close that has not been delivered yet *)
+Definition needed (x : scope) : Prop := closed x = false \/ delivered x < closed_at x.
+
 Definition Inv2 (s : sys) : Prop :=
   (forall k o, In (k, o) (reg s) -> san k = skey (obj s o)) /\
   NoDup (map fst (reg s)) /\
-  (forall o, o < length (objs s) -> closed (obj s o) = false -> lookup (reg s) (skey (obj s o)) = Some o).
+  (forall o, o < length (objs s) -> needed (obj s o) -> lookup (reg s) (skey (obj s o)) = Some o).
 
 Lemma lookup_none_notin r k : lookup r k = None -> ~ In k (map fst r).
 Proof. induction r as [|[a b] r IH]; cbn; auto. destruct (Nat.eqb_spec k a) as [->|N]; [discriminate|].
@@ -36,19 +40,22 @@ Proof. induction r as [|[a b] r IH]; cbn; auto. intros [E|E] N.
   - destruct (Nat.eqb k a && Nat.eqb o b); cbn; auto. Qed.
 
 Definition keeps (f : scope -> scope) : Prop :=
-  forall x, skey (f x) = skey x /\ (closed (f x) = false -> closed x = false).
-Lemma keeps_report : keeps report_obj. Proof. intros x. cbn; auto. Qed.
-Lemma keeps_clear : keeps clear_obj. Proof. intros x. cbn; auto. Qed.
-Lemma keeps_inc : keeps inc_obj. Proof. intros x. cbn; auto. Qed.
+  forall x, okobj x -> skey (f x) = skey x /\ (needed (f x) -> needed x).
+Lemma keeps_report : keeps report_obj.
+Proof. intros x (A & B & C & D). split; [reflexivity|]. unfold needed; cbn. intros [H|H]; [left; exact H|].
+  destruct (closed x) eqn:Ec; [|left; reflexivity]. specialize (B eq_refl). lia. Qed.
+Lemma keeps_clear : keeps clear_obj. Proof. intros x _. unfold needed; cbn; auto. Qed.
+Lemma keeps_inc : keeps inc_obj. Proof. intros x _. unfold needed; cbn; auto. Qed.
 Lemma keeps_close : keeps close_obj.
-Proof. intros x. unfold close_obj. destruct (closed x) eqn:E; cbn; split; auto; intros; congruence. Qed.
+Proof. intros x _. unfold close_obj, needed. destruct (closed x) eqn:E; cbn; split; auto.
+  intros [H|H]; [congruence|right; exact H]. Qed.
 
-Lemma inv2_set_obj s o f : keeps f -> Inv2 s -> Inv2 (set_obj s o (f (obj s o))).
+Lemma inv2_set_obj s o f : keeps f -> (forall o', okobj (obj s o')) -> Inv2 s -> Inv2 (set_obj s o (f (obj s o))).
 Proof.
-  intros K (A & B & C).
+  intros K Ho (A & B & C).
   assert (P : forall o', skey (obj (set_obj s o (f (obj s o))) o') = skey (obj s o') /\
-                         (closed (obj (set_obj s o (f (obj s o))) o') = false -> closed (obj s o') = false)).
-  { intros o'. destruct (obj_set_cases s o f o') as [E|[_ E]]; rewrite E; auto; try apply K. }
+                         (needed (obj (set_obj s o (f (obj s o))) o') -> needed (obj s o'))).
+  { intros o'. destruct (obj_set_cases s o f o') as [E|[_ E]]; rewrite E; auto; try apply K; auto. }
   split; [|split]; cbn [reg set_obj]; auto.
   - intros k o' H. rewrite (proj1 (P o')). auto.
   - intros o' L Hc. rewrite len_set_obj in L. rewrite (proj1 (P o')). apply C; auto. apply P; auto.
@@ -56,15 +63,16 @@ Qed.
 
 Lemma inv2_set_thr s i t : Inv2 s -> Inv2 (set_thr s i t). Proof. auto. Qed.
 
-Lemma inv2_remove s k o : Inv2 s -> closed (obj s o) = true -> Inv2 (set_reg s (remove_if (reg s) k o)).
+Lemma inv2_remove s k o : Inv2 s -> closed (obj s o) = true -> closed_at (obj s o) <= delivered (obj s o) ->
+  Inv2 (set_reg s (remove_if (reg s) k o)).
 Proof.
-  intros (A & B & C) Hc. split; [|split]; cbn [reg set_reg objs].
+  intros (A & B & C) Hc Hd. split; [|split]; cbn [reg set_reg objs].
   - intros k' o' H. change (obj (set_reg s (remove_if (reg s) k o)) o') with (obj s o'). apply A. eapply in_remove_if; eauto.
   - apply nodup_remove_if; auto.
-  - intros o' L Hl. change (closed (obj s o') = false) in Hl. change (skey (obj (set_reg s (remove_if (reg s) k o)) o')) with (skey (obj s o')).
+  - intros o' L Hl. change (needed (obj s o')) in Hl. change (skey (obj (set_reg s (remove_if (reg s) k o)) o')) with (skey (obj s o')).
     specialize (C o' L Hl). apply lookup_in_nodup. apply nodup_remove_if; auto.
     apply in_remove_if_keep. apply lookup_in; auto.
-    intros E. inversion E; subst. congruence.
+    intros E. inversion E; subst. destruct Hl as [Hl|Hl]; [congruence|lia].
 Qed.
 
 Lemma lookup_add_alias_other r k o k' : lookup r k' <> None -> lookup (add_alias r k o) k' = lookup r k'.
@@ -79,7 +87,7 @@ Proof.
     apply in_add_alias in H as [Q|H]; auto. inversion Q; subst.
     rewrite <- san_idem. apply A. apply lookup_in; auto.
   - apply nodup_add_alias; auto.
-  - intros o' L Hc. change (closed (obj s o') = false) in Hc. change (skey (obj (set_reg s (add_alias (reg s) k o)) o')) with (skey (obj s o')).
+  - intros o' L Hc. change (needed (obj s o')) in Hc. change (skey (obj (set_reg s (add_alias (reg s) k o)) o')) with (skey (obj s o')).
     specialize (C o' L Hc). rewrite lookup_add_alias_other; auto. congruence.
 Qed.
 
@@ -131,12 +139,12 @@ Proof.
   - destruct (prog t) as [|[k| |] rest].
     + destruct (passes t); [exact I2|]. apply inv2_next_entry; auto.
     + destruct (lookup (reg s) k) as [o|]; [destruct (closed (obj s o))|]; apply inv2_set_thr; auto.
-    + apply inv2_set_thr. destruct (cur t); auto. apply inv2_set_obj; auto. apply keeps_inc.
-    + apply inv2_set_thr. destruct (cur t); auto. apply inv2_set_obj; auto. apply keeps_close.
-  - apply inv2_set_thr. apply inv2_set_obj; auto. apply keeps_report.
+    + apply inv2_set_thr. destruct (cur t); auto. apply inv2_set_obj; auto. apply keeps_inc. apply I.
+    + apply inv2_set_thr. destruct (cur t); auto. apply inv2_set_obj; auto. apply keeps_close. apply I.
+  - apply inv2_set_thr. apply inv2_set_obj; auto. apply keeps_report. apply I.
   - apply inv2_set_thr. apply inv2_remove; tauto.
   - apply inv2_set_thr. apply inv2_remove; tauto.
-  - apply inv2_set_thr. apply inv2_set_obj; auto. apply keeps_clear.
+  - apply inv2_set_thr. apply inv2_set_obj; auto. apply keeps_clear. apply I.
   - destruct (lookup (reg s) (san k)) as [o|] eqn:El.
     + destruct (closed (obj s o)) eqn:Ec.
       * (* report, drop, clear, create *)
@@ -145,11 +153,17 @@ Proof.
         set (s2 := set_reg s1 (remove_if (reg s1) (san k) o)).
         set (s3 := set_obj s2 o (clear_obj (obj s2 o))).
         assert (I3 : Inv s3) by (apply inv_report_drop; auto).
-        assert (A1 : Inv2 s1) by (apply inv2_set_obj; auto; apply keeps_report).
+        assert (I1 : Inv s1) by (apply inv_mono; auto; apply mono_report).
+        assert (I2' : Inv s2).
+        { apply inv_set_reg; auto. destruct I1 as (_ & _ & Hr). intros k' o' Hin. apply in_remove_if in Hin. eauto. }
+        assert (A1 : Inv2 s1) by (apply inv2_set_obj; auto; [apply keeps_report|apply I]).
         assert (C1 : closed (obj s1 o) = true).
         { unfold s1. rewrite obj_set_same by auto. cbn. exact Ec. }
+        assert (D1 : closed_at (obj s1 o) <= delivered (obj s1 o)).
+        { unfold s1. rewrite obj_set_same by auto. destruct I as (Ho & _). destruct (Ho o) as (Q1 & Q2 & _).
+          specialize (Q2 Ec). cbn. lia. }
         assert (A2 : Inv2 s2) by (apply inv2_remove; auto).
-        assert (A3 : Inv2 s3) by (apply inv2_set_obj; auto; apply keeps_clear).
+        assert (A3 : Inv2 s3) by (apply inv2_set_obj; auto; [apply keeps_clear|apply I2']).
         assert (N3 : lookup (reg s3) (san k) = None).
         { change (reg s3) with (remove_if (reg s) (san k) o). apply lookup_remove_if_same; auto. apply I2. }
         apply (inv2_set_thr {| objs := objs s3 ++ [new_obj (san k)]; reg := add_alias ((san k, length (objs s3)) :: reg s3) k (length (objs s3)); thr := thr s3 |}).
@@ -159,9 +173,9 @@ Proof.
       apply inv2_new; auto.
   - apply inv2_next_entry; auto.
   - apply inv2_set_thr; auto.
-  - destruct c; apply inv2_set_thr; apply inv2_set_obj; auto; apply keeps_report.
+  - destruct c; apply inv2_set_thr; apply inv2_set_obj; auto; try apply keeps_report; apply I.
   - apply inv2_set_thr. apply inv2_remove; tauto.
-  - apply inv2_set_thr. apply inv2_set_obj; auto. apply keeps_clear.
+  - apply inv2_set_thr. apply inv2_set_obj; auto. apply keeps_clear. apply I.
 Qed.
 
 Lemma run_inv2 sched : forall s, Inv s -> Inv2 s -> Inv (run s sched) /\ Inv2 (run s sched).
@@ -181,7 +195,7 @@ Proof.
     - intros k o' [Q|[]]. inversion Q; subst. cbn. exact san_root.
     - constructor; [intros []|constructor].
     - intros o' L' _. destruct o' as [|o']; [reflexivity|lia]. }
-  destruct (run_inv2 sched _ (inv_init ths H) I2) as [_ (A & B & C)]. apply C; auto.
+  destruct (run_inv2 sched _ (inv_init ths H) I2) as [_ (A & B & C)]. apply C; auto. left; exact Hc.
 Qed.
 
 End WithSan.
